@@ -26,7 +26,9 @@ type c07Case struct {
 	// prefer (the group's taint_effect is NoExecute / PreferNoSchedule and the taints carry it) |
 	// busy-old (fresh; the oldest tainted node still runs a pod, the newer ones are idle) |
 	// maxnodes-at-count (fresh; max_nodes equals the number of registered nodes, so that room appears
-	// only through the force-tainted nodes removed earlier in the scan)
+	// only through the force-tainted nodes removed earlier in the scan) | big-tainted / small-tainted
+	// (fresh; the tainted nodes are twice / half the size of the untainted ones: an untainted node is
+	// one node, whatever its size)
 	Taint string
 }
 
@@ -132,6 +134,12 @@ func c07Build(p c07Case) *h.Scenario {
 						o.Annotation = "keep"
 					}
 					o.TaintEffect = g.Opts.TaintEffect
+					switch p.Taint {
+					case "big-tainted":
+						o.CPUMilli, o.MemBytes = 2000, 8<<30
+					case "small-tainted":
+						o.CPUMilli, o.MemBytes = 500, 2<<30
+					}
 					firstT = false
 				case "f":
 					o.ForceTaint = true
@@ -190,7 +198,8 @@ func c07Cases(tier string) []c07Case {
 										if t > 0 && pat == "asc" && ord == "ut" && !fleet {
 											out = append(out, c07Case{u, t, f, pat, ord, mode, n, fleet, tight, "expired"}, c07Case{u, t, f, pat, ord, mode, n, fleet, tight, "annotated"},
 												c07Case{u, t, f, pat, ord, mode, n, fleet, tight, "noexecute"}, c07Case{u, t, f, pat, ord, mode, n, fleet, tight, "prefer"},
-												c07Case{u, t, f, pat, ord, mode, n, fleet, tight, "busy-old"}, c07Case{u, t, f, pat, ord, mode, n, fleet, tight, "maxnodes-at-count"})
+												c07Case{u, t, f, pat, ord, mode, n, fleet, tight, "busy-old"}, c07Case{u, t, f, pat, ord, mode, n, fleet, tight, "maxnodes-at-count"},
+												c07Case{u, t, f, pat, ord, mode, n, fleet, tight, "big-tainted"}, c07Case{u, t, f, pat, ord, mode, n, fleet, tight, "small-tainted"})
 										}
 									}
 								}
@@ -232,8 +241,32 @@ func c07Rebuild(fleet bool) *h.Scenario {
 	}
 }
 
+// c07Retry: an untaint write fails in one scale-up scan (the next tainted node makes up for it); a
+// later scale-up scan must try that node again.
+func c07Retry() *h.Scenario {
+	g := StdGroup("g1")
+	g.Opts.MaxNodes, g.ASG.Max = 12, 12
+	g.Opts.MinNodes = 0
+	return &h.Scenario{Name: "c07.retry-after-failed-untaint", Groups: []h.GroupSpec{g}, Slots: 4, Quantum: Q, MaxEventsPerSlot: 1, BoundExact: 2, Prune: true,
+		FaultOps: map[string]bool{sim.OpK8sGet: true, sim.OpK8sUpdate: true},
+		Init: func(hh *h.Hist) {
+			a := InitASGs(hh)[0]
+			for i := 0; i < 2; i++ {
+				n := hh.W.AddNode(a, sim.NodeOpt{Age: time.Duration(40+i) * Q})
+				hh.W.AddPod(podOn(g, n.Name, 750)) // 75 %: one more node needed, no cloud call (no cool-down)
+			}
+			for i := 0; i < 3; i++ {
+				hh.W.AddNode(a, sim.NodeOpt{Age: time.Duration(20+i) * Q, TaintAge: dp(0)})
+			}
+		},
+		Events: func(hh *h.Hist, slot int) []h.Event {
+			return []h.Event{evBurst(g, 1, 1400), evBurst(g, 1, 700)}
+		},
+	}
+}
+
 func C07Scenarios(tier string) []*h.Scenario {
-	out := []*h.Scenario{c07Rebuild(false), c07Rebuild(true)}
+	out := []*h.Scenario{c07Rebuild(false), c07Rebuild(true), c07Retry()}
 	for _, p := range c07Cases(tier) {
 		out = append(out, c07Build(p))
 	}
